@@ -110,44 +110,137 @@ func runC15(c *Check) {
 			}
 		}
 	}
-	var equalOperands func(fn *ssa.Function) map[string]bool
-	equalDepth := 0
-	equalOperands = func(fn *ssa.Function) map[string]bool {
-		out := map[string]bool{}
-		// predicates of this package that the function calls (a guard moved into a helper)
-		if equalDepth < 2 {
-			equalDepth++
-			for _, cal := range staticCalleesOf(p, fn) {
-				if pk := fnPkg(cal); pk != nil && pk.Pkg.Path() == kvPkg && cal != root && cal.Signature.Results().Len() == 1 && isBoolType(cal.Signature.Results().At(0).Type()) {
-					for k := range equalOperands(cal) {
-						out[k] = true
-					}
+	// A reserved-key test is an equality (Key.Equal, ==, a switch case) between a reserved key
+	// constant and a subject; the facts on the way to a write / to the hashed list say which
+	// subjects were found different from which reserved keys.
+	stripString := func(t *Term) *Term {
+		t = t.unconv()
+		for t.IsCall("go-datastore.Key).String") && len(t.Args) == 1 {
+			t = t.Args[0].unconv()
+		}
+		return t
+	}
+	reservedOf := func(t *Term) string {
+		t = stripString(t)
+		if k := keyName(t); k != "" {
+			return k
+		}
+		if t.Op == "const" {
+			for _, v := range globals {
+				if v == t.Name {
+					return t.Name
 				}
 			}
-			equalDepth--
 		}
-		var bodies []*ssa.Function
-		bodies = append(bodies, fn)
-		bodies = append(bodies, fn.AnonFuncs...)
-		for _, body := range bodies {
-			for _, b := range body.Blocks {
-				for _, in := range b.Instrs {
-					call, ok := in.(*ssa.Call)
-					if !ok || !strings.HasSuffix(commonName(call.Common()), "go-datastore.Key).Equal") {
-						continue
-					}
-					t := TermOf(call, &Ctx{Fn: body})
-					for _, a := range t.Args {
-						if k := keyName(a); k != "" {
-							out[k] = true
-						}
+		return ""
+	}
+	type keyTest struct {
+		key     string
+		subject *Term
+	}
+	// distinctFrom: the tests that the facts establish as "subject differs from the reserved key"
+	distinctFrom := func(facts FactSet) []keyTest {
+		var out []keyTest
+		seen := map[string]bool{}
+		for _, f := range facts {
+			t, pol := normFact(f.Cond, f.Pol)
+			var a, b *Term
+			switch {
+			case t.IsCall("go-datastore.Key).Equal") && len(t.Args) == 2:
+				a, b = t.Args[0], t.Args[1]
+			case t.Op == "bin" && (t.Name == "==" || t.Name == "!="):
+				a, b = t.Args[0], t.Args[1]
+				if t.Name == "!=" {
+					pol = !pol
+				}
+			default:
+				continue
+			}
+			if pol {
+				continue
+			}
+			for i, side := range []*Term{a, b} {
+				other := []*Term{a, b}[1-i]
+				if k := reservedOf(side); k != "" && reservedOf(other) == "" {
+					id := k + "|" + stripString(other).String()
+					if !seen[id] {
+						seen[id] = true
+						out = append(out, keyTest{k, stripString(other)})
 					}
 				}
 			}
 		}
 		return out
 	}
-	X, R := equalOperands(root), equalOperands(exec)
+	guardFacts := func(g *Graph, target *Node) FactSet {
+		facts := p.closeRejected(FactSet(g.NecessaryEdges(func(n *Node) bool { return n == target })), 2)
+		return p.closeFacts(facts, 2)
+	}
+	// canonical form of a datastore key built from a string: NewKey(x) and x name the same
+	// key only when x is already canonical (keys handed back by the datastore are)
+	newKeyArg := func(t *Term) *Term {
+		t = stripString(t)
+		if t.IsCall("go-datastore.NewKey") && len(t.Args) == 1 {
+			return t.Args[0].unconv()
+		}
+		return nil
+	}
+
+	// X: keys excluded from the root, with the subject being the key that enters the hashed list
+	X := map[string]bool{}
+	{
+		g := BuildECFG(p, root, ExpandOpts{MaxDepth: 0})
+		c.NoteGraph(g)
+		apps := g.Select(func(n *Node) bool { return CallName(n) == "append" })
+		if len(apps) == 1 {
+			elem := ArgTerm(apps[0], 1)
+			if elem != nil && elem.Op == "list" && len(elem.Args) == 1 {
+				elem = elem.Args[0]
+			}
+			for _, kt := range distinctFrom(guardFacts(g, apps[0])) {
+				s := kt.subject.String()
+				if elem != nil && (s == elem.unconv().String() || (newKeyArg(kt.subject) != nil && newKeyArg(kt.subject).String() == elem.unconv().String())) {
+					X[kt.key] = true
+				} else {
+					c.Bad("C15-R1", "computeStateRoot ⟂ test-examines-the-hashed-key ⟂ "+kt.key, fnName(root), p.InstrPos(apps[0].In), "the reserved-key test for "+kt.key+" examines "+trunc(s, 80)+" but the key entering the hashed list is "+trunc(elem.String(), 80), nil)
+				}
+			}
+			if len(X) > 0 {
+				c.OK("C15-R1", "computeStateRoot ⟂ excluded-keys-are-skipped", fnName(root), p.InstrPos(apps[0].In), fmt.Sprintf("a key enters the hashed list only after being found different from %v", sortedKeys(X)), true)
+			} else {
+				c.Bad("C15-R1", "computeStateRoot ⟂ excluded-keys-are-skipped", fnName(root), p.InstrPos(apps[0].In), "no reserved-key test guards the hashed key list", nil)
+			}
+		} else {
+			c.Unk("C15-R1", "computeStateRoot ⟂ excluded-keys-are-skipped", fnName(root), "", fmt.Sprintf("anchor lost: %d appends", len(apps)))
+		}
+	}
+	// R: keys a transaction may not write, with the subject being the key that is staged
+	R := map[string]bool{}
+	{
+		g := BuildECFG(p, exec, ExpandOpts{MaxDepth: 2, Stop: func(f *ssa.Function) bool { return f == root }})
+		c.NoteGraph(g)
+		first := true
+		for _, n := range g.Select(func(n *Node) bool { return dsCall(n, "Put") || dsCall(n, "Delete") }) {
+			key := ArgTerm(n, 1)
+			here := map[string]bool{}
+			for _, kt := range distinctFrom(guardFacts(g, n)) {
+				if stripString(key).String() == kt.subject.String() {
+					here[kt.key] = true
+				} else if newKeyArg(key) != nil && newKeyArg(key).String() == kt.subject.String() {
+					c.Bad("C15-R1", "ExecuteTxs ⟂ test-examines-the-written-key ⟂ "+kt.key, fnName(exec), p.InstrPos(n.In), "the reserved-key test for "+kt.key+" examines the raw string "+trunc(kt.subject.String(), 60)+" but the key written is NewKey of it: a non-canonical spelling passes the test and is normalised onto the reserved key", nil)
+				}
+			}
+			if first {
+				R, first = here, false
+			} else {
+				for k := range R {
+					if !here[k] {
+						delete(R, k)
+					}
+				}
+			}
+		}
+	}
 	wk, xk, rk := sortedKeys(W), sortedKeys(X), sortedKeys(R)
 	if len(wk) < 2 || len(xk) < 2 {
 		c.Unk("C15-R1", "key-sets", "", "", fmt.Sprintf("anchor lost: written keys %v, excluded keys %v", wk, xk))
@@ -162,56 +255,14 @@ func runC15(c *Check) {
 	if strings.Join(xk, ",") == strings.Join(rk, ",") {
 		c.OK("C15-R1", "excluded-from-root = rejected-in-transactions", "", p.Pos(exec.Pos()), "both sets are "+strings.Join(xk, ","), true)
 	} else {
-		c.Bad("C15-R1", "excluded-from-root = rejected-in-transactions", "", p.Pos(exec.Pos()), fmt.Sprintf("keys excluded from the root %v differ from keys transactions may not write %v: a transaction could write a key that is not hashed, or a reserved key", xk, rk), nil)
+		c.Bad("C15-R1", "excluded-from-root = rejected-in-transactions", "", p.Pos(exec.Pos()), fmt.Sprintf("keys excluded from the root %v differ from keys every staged write was found different from %v: a transaction could write a key that is not hashed, or a reserved key", xk, rk), nil)
 	}
-	// the exclusion really skips the key: the append of a key is behind the false edges of all Equal tests
 	{
 		g := BuildECFG(p, root, ExpandOpts{MaxDepth: 0})
-		c.NoteGraph(g)
 		apps := g.Select(func(n *Node) bool { return CallName(n) == "append" })
-		eqFalse := g.Select(EdgeWhere(func(t *Term, pol bool, n *Node) bool {
-			t, pol = normFact(t, pol)
-			return !pol && t.IsCall("go-datastore.Key).Equal")
-		}))
-		nEq := 0
-		for _, b := range root.Blocks {
-			for _, in := range b.Instrs {
-				if call, ok := in.(*ssa.Call); ok && strings.HasSuffix(commonName(call.Common()), "go-datastore.Key).Equal") {
-					nEq++
-				}
-			}
+		if len(apps) != 1 {
+			return
 		}
-		nEq = len(X)
-		if len(apps) == 1 {
-			facts := FactSet(g.NecessaryEdges(nodeSet(apps)))
-			// a rejected predicate helper contributes the facts common to all its rejecting alternatives
-			for _, f := range append(FactSet{}, facts...) {
-				if f.Pol || f.Cond.Op != "call" {
-					continue
-				}
-				if cv, ok := f.Cond.V.(*ssa.Call); ok && cv.Common().StaticCallee() != nil && p.InRepo(cv.Common().StaticCallee()) {
-					callee := cv.Common().StaticCallee()
-					alts := p.RejectDNF(callee, &Ctx{Parent: f.Cond.Ctx, Site: cv, Fn: callee}, 0, 1)
-					facts = append(facts, intersectFacts(alts)...)
-				}
-			}
-			got := 0
-			seenEq := map[string]bool{}
-			for _, f := range facts {
-				if !f.Pol && f.Cond.IsCall("go-datastore.Key).Equal") && !seenEq[f.Cond.String()] {
-					seenEq[f.Cond.String()] = true
-					got++
-				}
-			}
-			if got == nEq && nEq > 0 {
-				c.OK("C15-R1", "computeStateRoot ⟂ excluded-keys-are-skipped", fnName(root), p.InstrPos(apps[0].In), fmt.Sprintf("a key enters the hashed list only behind the false edges of all %d reserved-key tests", nEq), true)
-			} else {
-				c.Bad("C15-R1", "computeStateRoot ⟂ excluded-keys-are-skipped", fnName(root), p.InstrPos(apps[0].In), fmt.Sprintf("only %d of %d reserved-key tests guard the hashed key list", got, nEq), nil)
-			}
-		} else {
-			c.Unk("C15-R1", "computeStateRoot ⟂ excluded-keys-are-skipped", fnName(root), "", fmt.Sprintf("anchor lost: %d appends", len(apps)))
-		}
-		_ = eqFalse
 		// R3
 		sorts := g.Select(IsCall("sort.Strings"))
 		gets := g.Select(func(n *Node) bool { return dsCall(n, "Get") })
@@ -239,7 +290,7 @@ func runC15(c *Check) {
 		for _, b := range root.Blocks {
 			for _, in := range b.Instrs {
 				if fa, ok := in.(*ssa.FieldAddr); ok && fa.X == ssa.Value(root.Params[0]) {
-					if name := derefStruct(fa.X.Type()).Field(fa.Field).Name(); name != "db" {
+					if name := fieldLabel(fa.X.Type(), fa.Field); name != "db" {
 						impure = append(impure, "field "+name)
 					}
 				}
